@@ -28,6 +28,9 @@ CLAIMED = {
  "C19": ("§7 C19", "Environment answers as explorer choices: every Read of an instrumented io.Reader (all chunkings of short documents, all chunkings with <=d split points of long ones, byte-at-a-time, data together with EOF) and a persistent read failure after every byte offset; every Write of an instrumented io.Writer failing at every write-call index in two failure shapes, for three writer modes; results compared with the whole-buffer run and with the error-propagation clauses of the property.",
          "bufio sits between the instrumented reader and ion-go as in NewReader; more than d split points on long documents are not covered.",
          "exhaustive enumeration of environment answers (chunk boundaries, fault points) under a deviation bound, on the implementation"),
+ "C20": ("§7 C20", "The command is rebuilt from /repo and run as a subprocess on every document of a corpus (all catalogue scalars, token-class representatives in annotation/field/nesting contexts, every typed null, all small shapes) in text and binary x five output formats x two input routes, plus the C07 catalogue of invalid inputs; outputs are decoded by the independent decoders (or matched event by event against the expected event list) and the error report is parsed.",
+         "Trusts the reference codecs and the event expectation derived from the model; documents outside the corpus are not covered; the 60 s timeout is only a hang backstop.",
+         "exhaustive enumeration of a document x format x route product, each executed as a real subprocess and judged by an independent decoder"),
  "C05": ("§7 C05", "Source documents produced by the reference printer/encoder (the whole value generator, plus every history of <=4 symbol-table events under five catalogs) in text and binary are copied by the documented copy loop into text, pretty and binary Writers; the independent decoder must read back the values the reference context machine assigns to the source, symbols compared by text.",
          "Trusts refsym/refbin/reftext; longer histories are not covered; symbols whose text the source does not know are judged on histories of <=3 events (known findings).",
          "explicit enumeration of source histories x destinations, replayed through the real Reader and Writer, judged by an independent decoder"),
